@@ -550,6 +550,16 @@ func init() {
 	reg("valid/bip68-height-lock-exact", "C04", valid, func(c *ctx) *refchain.Block { return bip68(c, false, 0) })
 	reg("bip68/time-lock-unsatisfied", "C04", []string{"bad-txns-nonfinal(BIP68)"}, func(c *ctx) *refchain.Block { return bip68(c, true, 1) })
 	reg("valid/bip68-time-lock-exact", "C04", valid, func(c *ctx) *refchain.Block { return bip68(c, true, 0) })
+	// relative locks on a coin created earlier in the same block: the coin's height is the block's own height
+	reg("bip68/in-block-parent-height-lock-1", "C04", []string{"bad-txns-nonfinal(BIP68)"}, func(c *ctx) *refchain.Block { return bip68InBlock(c, 1, 2) })
+	reg("bip68/in-block-parent-time-lock-1", "C04", []string{"bad-txns-nonfinal(BIP68)"}, func(c *ctx) *refchain.Block { return bip68InBlock(c, 1|1<<22, 2) })
+	reg("bip68/in-block-parent-height-lock-deep", "C04", []string{"bad-txns-nonfinal(BIP68)"}, func(c *ctx) *refchain.Block {
+		return bip68InBlock(c, c.height, 2) // would be satisfied if the coin were taken to be at height 0
+	})
+	reg("valid/bip68-in-block-parent-lock-0", "C04", valid, func(c *ctx) *refchain.Block { return bip68InBlock(c, 0, 2) })
+	reg("valid/bip68-in-block-parent-time-lock-0", "C04", valid, func(c *ctx) *refchain.Block { return bip68InBlock(c, 1<<22, 2) })
+	reg("valid/bip68-in-block-parent-disabled", "C04", valid, func(c *ctx) *refchain.Block { return bip68InBlock(c, 1<<31|50, 2) })
+	reg("valid/bip68-in-block-parent-version-1", "C04", valid, func(c *ctx) *refchain.Block { return bip68InBlock(c, 50, 1) })
 	reg("valid/bip68-ignored-for-version-1", "C04", valid, func(c *ctx) *refchain.Block {
 		ops, cs := c.take(1)
 		if ops == nil {
@@ -858,6 +868,22 @@ func bip68(c *ctx, timeBased bool, excess uint32) *refchain.Block {
 	}
 	t := c.g.Spend([]refchain.OutPoint{op}, []refchain.Coin{coin}, []refchain.TxOut{c.g.OutTrue(coin.Value - 1)}, 2, 0, []uint32{seq}, -1)
 	return c.blockWith([]*refchain.Tx{t}, 1, chainsim.BlockSpec{})
+}
+
+// bip68InBlock: a parent transaction and, later in the same block, a child spending the parent's output with the
+// given nSequence. The spent coin is created at the block's own height.
+func bip68InBlock(c *ctx, seq uint32, version uint32) *refchain.Block {
+	if !c.csv {
+		return nil
+	}
+	ops, cs := c.take(1)
+	if ops == nil {
+		return nil
+	}
+	parent := c.g.Spend(ops, cs, []refchain.TxOut{c.g.OutTrue(cs[0].Value - 1)}, 1, 0, nil, -1)
+	pc := refchain.Coin{Value: cs[0].Value - 1, Script: parent.Out[0].Script, Height: c.height}
+	child := c.g.Spend([]refchain.OutPoint{{Hash: parent.TxID(), Idx: 0}}, []refchain.Coin{pc}, []refchain.TxOut{c.g.OutTrue(pc.Value - 1)}, version, 0, []uint32{seq}, -1)
+	return c.blockWith([]*refchain.Tx{parent, child}, 2, chainsim.BlockSpec{})
 }
 
 // ---------------------------------------------------------------------------------------------
